@@ -26,6 +26,15 @@ def scenarios(tier, seed):
     out = []
     k = 0
     nh = 2 if tier == "quick" else 6
+    import itertools as _it
+    for names in (["A", "B", "C"], [2, 0, 1]):
+        perms = [list(p) for p in _it.permutations(range(3))]
+        out.append(dict(family="pc-stable/order-independence", mode="pcorder", n=3, names=names, orders=perms, hashseed=0, budget_s=100, max_paths=3000, validate=False))
+    for rot in range(2 if tier == "quick" else 6):
+        base = list(range(4))
+        orders = [base, base[::-1], base[rot % 4:] + base[:rot % 4], [2, 0, 3, 1]]
+        out.append(dict(family="pc-stable/order-independence", mode="pcorder", n=4, names=["A", "B", "C", "D"], orders=orders, hashseed=rot % 2, budget_s=100,
+                        max_paths=1500, validate=False, cost=100))
     shapes = ["chain3", "fork3", "collider3", "full3", "diamond", "collchild", "iso3"]
     L = 3 if tier == "quick" else 4
     for sname in shapes:
@@ -101,7 +110,35 @@ def same_model(M, a, b):
 
 
 def run(desc, M):
-    return {"seq": run_seq, "relabel": run_relabel, "pure": run_pure}[desc["mode"]](desc, M)
+    return {"seq": run_seq, "relabel": run_relabel, "pure": run_pure, "pcorder": run_pcorder}[desc["mode"]](desc, M)
+
+
+def run_pcorder(desc, M):
+    """PC-stable with an ARBITRARY conditional-independence oracle (one free Boolean per question {u,v}|S - faithful or not): the skeleton must not
+    depend on the order in which the variables are listed.  The oracle is lazy: execution forks on the answers the algorithm asks for."""
+    import itertools
+    from pgmpy.estimators import PC
+    from pgmpy.independencies import Independencies
+    n = desc["n"]
+    names = desc["names"]
+    M.declare([])
+    asked = {}
+
+    def ci_test(u, v, Zs, **kw):
+        key = "ci_" + "_".join(sorted([str(u), str(v)])) + "__" + "_".join(sorted(map(str, Zs)))
+        if key not in asked:
+            asked[key] = M.bool(key)
+        return bool(asked[key])
+    skeletons = []
+    for order in desc["orders"]:
+        est = PC(independencies=Independencies())
+        est.variables = [names[i] for i in order]
+        skel, sep = est.estimate(variant="stable", ci_test=ci_test, max_cond_vars=n, return_type="skeleton", show_progress=False, n_jobs=1)
+        skeletons.append({frozenset(e) for e in skel.edges()})
+        M.check(set(skel.nodes()) <= set(names), "PC-stable skeleton is over the given variables")
+    for o, sk in zip(desc["orders"][1:], skeletons[1:]):
+        M.check(sk == skeletons[0], "PC-stable skeleton does not depend on the order in which the variables are listed (any CI answers)",
+                detail=f"order {[names[i] for i in desc['orders'][0]]}: {sorted(map(sorted, skeletons[0]))}; order {[names[i] for i in o]}: {sorted(map(sorted, sk))}")
 
 
 def answer_check(desc, M, nm, jt, res, qs, ev, lam, virt, tag, joint=True):
